@@ -39,6 +39,7 @@ type CheckSpec struct {
 	Stubs    []string
 	Outside  []string
 	Deadline func(tier string) time.Duration
+	ValidateAll bool // replay every sampled path natively (conformance checks)
 }
 
 var checks = map[string]*CheckSpec{}
@@ -484,7 +485,7 @@ func checkMain(args []string) int {
 				for _, f := range res.Funcs {
 					agg.funcs[f] = true
 				}
-				if len(agg.samples) < 400 {
+				if len(agg.samples) < 400 || spec.ValidateAll {
 					agg.samples = append(agg.samples, res.Samples...)
 				}
 				for _, v := range res.Violations {
@@ -645,7 +646,7 @@ func checkMain(args []string) int {
 		var ins []nativeIn
 		var ss []interp.Sample
 		step := 1
-		if len(agg.samples) > 200 {
+		if len(agg.samples) > 200 && !spec.ValidateAll {
 			step = len(agg.samples) / 200
 		}
 		for i := (seed % step + step) % step; i < len(agg.samples); i += step {
